@@ -61,3 +61,11 @@ Proof. vm_compute. split; reflexivity. Qed.
    holds the mutex while waiting for the peer *)
 Lemma tbl_statelock : sc_statelock_blocking_calls = [].
 Proof. vm_compute. reflexivity. Qed.
+
+(* SetCloseDeadline replaces the deadline: the new input context is built from
+   context.Background() — not derived from the one it replaces, whose deadline
+   would otherwise stay in force for ever —, the previous one is cancelled, and
+   the zero time means no deadline (as for the connection's read deadline) *)
+Lemma tbl_setdeadline : sc_setclosedeadline_fresh_context = true /\
+  sc_setclosedeadline_cancels_previous = true /\ sc_setclosedeadline_zero_is_no_deadline = true.
+Proof. vm_compute. repeat split; reflexivity. Qed.
